@@ -27,13 +27,16 @@ PROPS["C01"] = dict(
           "2^16 byte pairs / all 2^16 values for 8-bit and unary 16-bit opcodes; (rc) rapidcheck choice streams decoded into "
           "well-typed programs of 1..40 instructions (temporaries reused/overwritten, in-place destinations, accumulators, "
           "constants, 1/2/4/8-byte parameters, x2/x4, special loads, constant n, n multiple/min/max, 2-D, declared alignment) "
-          "with boundary-biased data, n in 0..200 (and 1000..5000), m in 0..5, strides, misalignment mod 64. "
+          "with boundary-biased data, n in 0..200 (1000..5000, and 10000..70000 in one big case in four), m in 0..5, positive and "
+          "negative row strides, misalignment mod 64; one program in twelve has a random subset of its variable classes filled "
+          "up to ORC_MAX_*_VARS; explicit loadX/storeX also with x2/x4; loads from arrays declared as destination; (enum) 7 "
+          "hand-written corner programs x 3 targets whose shapes the generator leaves out on purpose (they reproduce three known findings). "
           "Non-trivial = compiled successfully for the target and at least one run had n*m > 0; distinct = hash of "
           "(program, target, flags, the n values). Oracle: orc_executor_emulate on identical inputs; destination bytes of elements "
           "0..n-1 per row and accumulators (masked to their size) equal, every other array byte unchanged."),
     assumptions=[
         "inputs stay inside documented/observed caller preconditions: pointers and strides aligned to the declared alignment, "
-        "non-negative strides, no aliasing between distinct variables, shift counts 0..width-1, resampling/offset parameters "
+        "no aliasing between distinct variables, shift counts 0..width-1, resampling start in [0, 0x3ffff] and step in [0, 0x2ffff], element offsets in -9..9: parameters "
         "that keep indices inside the (enlarged) source arrays, n consistent with constant_n / n_multiple / n_min / n_max",
         "integer opcodes only (float paths are C18); programs stay inside the compiler's internal table sizes (that is C05)",
         "only 64-bit x86 code can be executed on this host",
@@ -595,12 +598,15 @@ PROPS["C16"] = dict(
         dict(name="enum-long-loops", mode="enum", quick=dict(), thorough=dict()),
         dict(name="rc-lifecycle-histories", mode="rc", quick=dict(cases=16000, max_size=1500, budget=50), thorough=dict(cases=400000, max_size=2500, budget=900)),
     ],
-    rule=("a case is a history over 4 slots of: new program (valid, with an undeclared operand, or with an unknown opcode), compile / recompile "
+    rule=("a case is a history over 4 slots of: new program (valid, with an undeclared operand, or with an unknown opcode - the invalid ones "
+          "optionally compiled once while still valid, so that the next compilation is fatal and has to drop that code), compile / recompile "
           "for avx, sse, mmx, c or no target, take_code, reset, run attached, emulate, run taken code, free program, free taken code, "
-          "parse generated .orc text (optionally with broken lines) and free the programs and error records. Non-trivial: the history "
+          "parse generated .orc text (optionally with broken lines, through orc_parse_code or orc_parse_full) and free the programs and "
+          "error records. Non-trivial: the history "
           "contains a failed compile followed by further use, a recompile after take_code, or a run of taken code after its program was "
           "freed. Oracle: ASan silent, LSan reports no unreachable block after the final frees, used code chunks == live code objects "
-          "after every operation and 0 at the end, taken code computes what emulation computes, heap in use and region count do not grow "
+          "after every operation and 0 at the end, a fatal compile result leaves no code object attached, taken code computes what "
+          "emulation computes, heap in use and region count do not grow "
           "between iteration 1000 and 3000 of the long loops."),
     assumptions=["ORC_CODE=debug (which disables freeing) is not set"],
 )
@@ -690,6 +696,8 @@ PROPS["C15"] = dict(
     level="exploration",
     technique="round-trip / differential property-based testing (rapidcheck): generated programs are built through the API and, independently, printed as .orc text with randomised formatting and literal spellings, parsed, and compared structurally and by emulation",
     level_text=("generated files of 1..3 functions (full opcode set, all directive kinds) printed with random spacing, tabs, comments, blank "
+                "lines, variable names from a pool of number-like and keyword-like identifiers (nan, inf, infinity, info, x2, n, dest ...) in a third of the functions, "
+                "
                 "lines, LF/CRLF/mixed endings, decimal/hex/octal/negative/float/L-suffixed literals, inline literal operands, type names "
                 "and alignments; every parsed program is compared with its API-built twin field by field and by emulation on random "
                 "inputs. Sampled, not exhaustive"),
@@ -722,14 +730,19 @@ PROPS["C05"] = dict(
         dict(name="rc-compile", mode="rc", quick=dict(cases=30000, max_size=800, budget=40), thorough=dict(cases=3000000, max_size=1200, budget=1500)),
     ],
     rule=("enumerated: every opcode x prefix (none, x2, x4) as a one-instruction program with operands of exactly the class and size each "
-          "position needs, then every operand position spoiled in 12 ways (9 sizes incl. 3, 5, 16, 32; wrong class; constant or "
-          "accumulator in the wrong role; undeclared variable) x array or temporary operands x all 8 targets (about 590 cases, "
-          "0.5 million compiles). Generated: "
+          "position needs, then every operand position spoiled in 16 ways (11 sizes incl. 0, -1, 3, 5, 16, 32; wrong class; constant or "
+          "accumulator in the wrong role; undeclared variable; flag bits 2 and 3, which are not prefixes) x array or temporary "
+          "operands x all 8 targets (about 590 cases, 0.7 million compiles; what avx or c accept is also emulated); then, per target, "
+          "the N = 3..52 opcodes that are most expensive for that back end, one instruction each - the ranking is measured at start-up "
+          "by compiling every opcode alone and counting labels, pool entries and code bytes in its listing (3 rankings x 2 flag sets x "
+          "8 targets = 2400 programs); then 16 hand-written regression programs (pooled AltiVec constants). Generated: "
           "a case is (program built as valid / mutated / over-limit, 1..3 (target, flags) pairs); every compile is an inner evaluation. "
           "Non-trivial: every case (each reaches the compiler). Oracle: the call returns within the CPU limit with no sanitizer report or "
           "abort; the result is a documented code; fatal => no executable code attached; successful => code object, exec pointer, listing "
           "present and (valid integer program, x86 target, default flags) native run == emulation; other => code object "
-          "present, code_exec is the emulator/backup, orc_executor_run works (valid programs); orc_program_free works."),
+          "present, code_exec is the emulator/backup, orc_executor_run works (valid programs); a mutated program that got any non-fatal "
+          "result is emulated on ample arrays and must not crash (programs with offset/resampling loads excepted: their index operands "
+          "are arbitrary); orc_program_free works."),
     assumptions=["ORC_CODE unset"],
 )
 
@@ -791,10 +804,12 @@ PROPS["C07"] = dict(
     level="exploration",
     technique="end-to-end differential property-based testing (rapidcheck): generated .orc files go through the real orcc and gcc, the generated functions are called through their C prototypes from a generated caller and compared with emulation of API-built twins; enumerated lengths/alignments for orc_memcpy/orc_memset against memcpy/memset",
     level_text=("generated .orc files (1..3 functions, full opcode set, 2-D, accumulators, typed parameters) x orcc options (lazy or "
-                "--init-function, --compat none/0.4.8/0.4.14.1/0.4.30, --no-backup, --inline) x {JIT, ORC_CODE=backup, ORC_CODE=emulate, "
+                "--init-function, --compat none/0.4.5/0.4.6/0.4.8/0.4.14.1/0.4.30, --no-backup, --inline) x {JIT, ORC_CODE=backup, ORC_CODE=emulate, "
                 "DISABLE_ORC}; both orcc outputs compiled by gcc with a generated caller, every function called 1..3 times on guarded "
-                "arenas; orc_memcpy/orc_memset for all lengths 0..260 x 16x16 misalignments x three modes (enumerated, complete). The "
-                "generated part is sampled"),
+                "arenas (positive and negative strides; one function in twelve with variable classes filled to the limit); orc_memcpy/"
+                "orc_memset for all lengths 0..260 x 16x16 misalignments x three modes (enumerated, complete); a generated function as the "
+                "first Orc call of a fresh process (6 cases); the .backup directive with an application-supplied fallback (4 files x 2 builds, "
+                "each run with ORC_CODE=backup and without). The generated part is sampled"),
     level_note=("trusted base: gcc 12, the caller generator (argument order as tools/orcc.c:output_prototype), orc_executor_emulate of the "
                 "API-built twin as reference (C15 relates text to API, C02 relates emulation to the documentation); known native/emulation "
                 "findings of C01/C02/C18 are kept out by construction; --test mode output is not exercised"),
@@ -806,7 +821,11 @@ PROPS["C07"] = dict(
           "at least one call compared. Oracle: orcc exits 0 for implementation and header; gcc accepts both with the caller; every call "
           "leaves the destination bytes / accumulators emulation leaves (float: NaN and +-0 freedoms) and nothing else changes. "
           "Enumerated case = (mode, destination misalignment): all lengths and source misalignments, both in the middle of a buffer "
-          "and ending at an unmapped page, equal memcpy/memset including the surrounding bytes."),
+          "and ending at an unmapped page, equal memcpy/memset including the surrounding bytes. .backup case: both outputs compile "
+          "together with the application's backup function (declared with the prototype orcc gives it), results are right with and "
+          "without ORC_CODE=backup, and the backup ran exactly once when it had to. orcc refusing a file is a discard only for "
+          "--compat levels older than a feature the file uses and for functions with more than 27 variables (the C target models 32 "
+          "registers); any other refusal of a well-formed file is a violation."),
     assumptions=["gcc 12.2 stands for the application's C compiler"],
 )
 
@@ -818,7 +837,9 @@ PROPS["C08"] = dict(
     technique="property-based concurrency testing (rapidcheck-generated per-thread operation lists with generated yields, all threads released by a barrier, fresh process per case) under ThreadSanitizer's happens-before race detection, with result and exactly-once counters as oracles",
     level_text=("generated workloads of 2..16 threads x 3..14 operations each (concurrent orc_init, compile/run/free of own programs for "
                 "avx/sse/mmx with and without code hand-off, runs of functions compiled once and shared, calls through once-guarded wrappers "
-                "written like orcc's lazy-init output) with generated yields, each in a fresh process under ThreadSanitizer. TSan judges every "
+                "written like orcc's lazy-init output - four compiled as C11 and four as C99 (props/c08_once99.c, -std=gnu99), where "
+                "orconce.h selects its __sync implementation, the one a C99 application such as GStreamer gets) with generated yields, each "
+                "in a fresh process under ThreadSanitizer. TSan judges every "
                 "pair of conflicting accesses that occurred, not only the interleaving that happened to run; sampled, not exhaustive, and "
                 "JIT-generated code itself is not instrumented"),
     level_note=("trusted base: ThreadSanitizer (clang 14) for the library's C code, the harness' counters and C reference kernels; accesses made "
